@@ -53,7 +53,7 @@ def describe(tier):
             "byte value 0..255 in a node value, awkward type/label strings (non-ASCII, quote, backslash, newline, '/', '>'), linear chains of depth 1..200, and every "
             "scan tree of the mix/net scan-level families. Oracle: tree_to_json is valid JSON whose objects carry type/value(hex)/obfuscation/start/end/children for "
             "every node; json_to_tree(tree_to_json(t)) == t with correct parent links; for every tree with <= 6 nodes EVERY single-field mutation of EVERY node "
-            "(type, value, obfuscation, start, end, child added/removed) makes the trees unequal. CLI: main() driven in-process for ALL combinations of "
+            "(type, value, obfuscation, start, end, child added/removed) and every re-nesting that keeps the pre-order sequence (children promoted to siblings, sibling nested under its predecessor) makes the trees unequal. CLI: main() driven in-process for ALL combinations of "
             "{file argument, stdin} x {default, --json, --replace} x {shipped keywords, --keywords fixture directory, --keywords non-directory} x 12 inputs, plus real "
             "`python -m multidecoder` subprocesses for each mode. Oracle: --json == tree_to_json(Multidecoder(same registry).scan(bytes)); default = one line per "
             "node in pre-order, label part = ancestor type/>obfuscation chain, value part decodes back to the node value; --replace == flatten() when no "
@@ -152,6 +152,30 @@ def check_json(rec, root, w, size, mutate=False):
             n.children.pop()
             if same:
                 rec.violation("C20.eq.structural", f"eq-ignores-children|{'root' if i == 0 else 'descendant'}", w, f"adding a child to node #{i} leaves the trees equal", size)
+            # re-nesting: same nodes in the same pre-order, different shape (children is a field too)
+            if n.children and n.children[-1].children:
+                c = n.children[-1]
+                moved = c.children
+                c.children = []
+                n.children.extend(moved)  # root -> A -> B   becomes   root -> A, B
+                same = back == root
+                del n.children[-len(moved):]
+                c.children = moved
+                rec.count("transitions")
+                if same:
+                    rec.violation("C20.eq.structural", f"eq-ignores-nesting|{'root' if i == 0 else 'descendant'}", w,
+                                  f"promoting the children of node #{i}'s last child to siblings (same pre-order, different nesting) leaves the trees equal", size)
+            if len(n.children) >= 2 and not n.children[-2].children:
+                a, b = n.children[-2], n.children[-1]
+                n.children.pop()
+                a.children.append(b)  # root -> A, B   becomes   root -> A -> B
+                same = back == root
+                a.children.pop()
+                n.children.append(b)
+                rec.count("transitions")
+                if same:
+                    rec.violation("C20.eq.structural", f"eq-ignores-nesting|{'root' if i == 0 else 'descendant'}", w,
+                                  f"nesting node #{i}'s last child under its previous sibling leaves the trees equal", size)
         if not (back == root):
             rec.violation("C20.eq.structural", "eq-not-restored", w, "harness: tree not restored after mutation", size)
 
